@@ -240,19 +240,19 @@ package network
 //@ define API_WF(a) = a != nil && a.simpleHTTP != nil && a.simpleHTTP.client != nil && a.ResponseDeserializer != nil
 
 //@ func APIMakeDoNewRequest
-//@   prop C17
+//@   prop C17,C18
 //@   opt callbacks=effectful
 //@   opt effects=trace
 //@   opt returns-lit=0
 //@   ensures lazy: tr_len == old(tr_len)
 //@ func APIMakeDoNewRequest lit 0
-//@   prop C17
+//@   prop C17,C18
 //@   opt callbacks=effectful
 //@   opt effects=trace
 //@   ensures lazy: tr_len == old(tr_len)
 //@   ensures deferred: r0 != nil && fresh(r0) && r0.effect == _lit1 && r0.obOn == nil && r0.subOn == nil
 //@ func APIMakeDoNewRequest lit 1
-//@   prop C17
+//@   prop C17,C18
 //@   opt callbacks=effectful
 //@   opt effects=trace
 //@   requires API_WF(simpleAPISelf)
@@ -268,19 +268,19 @@ package network
 //@ define REQ_EVENT(e, api, rwe) = tr_kind[e] == 2 && tr_fn[e] == method("http.Client.Do") && tr_obj[e] == api.simpleHTTP.client && tr_arg[e] == boxed(rwe.Request)
 
 //@ func APIMakeDoNewRequestWithBodySerializer
-//@   prop C17
+//@   prop C17,C18
 //@   opt callbacks=effectful
 //@   opt effects=trace
 //@   opt returns-lit=0
 //@   ensures lazy: tr_len == old(tr_len)
 //@ func APIMakeDoNewRequestWithBodySerializer lit 0
-//@   prop C17
+//@   prop C17,C18
 //@   opt callbacks=effectful
 //@   opt effects=trace
 //@   ensures lazy: tr_len == old(tr_len)
 //@   ensures deferred: r0 != nil && fresh(r0) && r0.effect == _lit1 && r0.obOn == nil && r0.subOn == nil
 //@ func APIMakeDoNewRequestWithBodySerializer lit 1
-//@   prop C17
+//@   prop C17,C18
 //@   opt callbacks=effectful
 //@   opt effects=trace
 //@   requires API_WF(simpleAPISelf) && bodySerializer != nil
@@ -298,19 +298,19 @@ package network
 //@   ensures decoded: (absent(body) || tr_err[old(tr_len)] == nil) && DoNewRequestWithBodyOptions_r0.Request != nil && DoNewRequestWithBodyOptions_r0.Err == nil ==> r0 == decodeResponseBody_r0 && decodeResponseBody_arg_target == target
 
 //@ func APIMakeDoNewRequestWithMultipartSerializer
-//@   prop C17
+//@   prop C17,C18
 //@   opt callbacks=effectful
 //@   opt effects=trace
 //@   opt returns-lit=0
 //@   ensures lazy: tr_len == old(tr_len)
 //@ func APIMakeDoNewRequestWithMultipartSerializer lit 0
-//@   prop C17
+//@   prop C17,C18
 //@   opt callbacks=effectful
 //@   opt effects=trace
 //@   ensures lazy: tr_len == old(tr_len)
 //@   ensures deferred: r0 != nil && fresh(r0) && r0.effect == _lit1 && r0.obOn == nil && r0.subOn == nil
 //@ func APIMakeDoNewRequestWithMultipartSerializer lit 1
-//@   prop C17
+//@   prop C17,C18
 //@   opt callbacks=effectful
 //@   opt effects=trace
 //@   requires API_WF(simpleAPISelf) && multipartSerializer != nil
